@@ -17,7 +17,10 @@ EXPLANATION = (
     "value[..., i]; sample/mode/mean stack in the same order; sample and log-prob of sample_and_log_prob come from one per-component "
     "call; prob = exp(log_prob); flat parameters are split at cumsum(action_dims[:-1]) on the last axis; C15.3 squashing = "
     "Chain((ScalarAffine(scale=high-low, shift=low), Sigmoid())) with the affine outermost, Block(..., ndims=1) for the multivariate "
-    "law; C15.4 mode of transformed laws falls back to bijector.forward(base.mode())."
+    "law; C15.4 mode of transformed laws falls back to bijector.forward(base.mode()); C15.6 masked laws are rebuilt through the constructor; "
+    "C15.7 index width (cross-source): distreqx's Categorical narrows its draws and modes to int8 (read from its source), so no law wrapping "
+    "it hands out the result of the library's sample / mode / sample_and_log_prob - the wrappers draw and take the arg-max from the "
+    "component's parameters, which the thin-wrapper rule accepts exactly when that is the wrapped law itself."
 )
 ASSUMPTIONS = [
     "distreqx distributions and bijectors are correct probability laws (trusted; all numeric clauses of C15 live there)",
@@ -36,6 +39,90 @@ MC_REFS = {
 }
 
 
+# the law of one categorical component `d` (a distreqx Categorical), written through the component's own methods or directly from its
+# parameters: a draw is categorical(key, d.logits) (the library also maps draws of an invalid parameter vector to -1), the mode is the
+# arg-max of the logits / probabilities. log_prob is always the component's own.
+DRAWS = ["{d}.sample({k})",
+         "jnp.where(jnp.all(jnp.isfinite({d}.probs), axis=-1) & jnp.all({d}.probs >= 0, axis=-1), jax.random.categorical({k}, {d}.logits, axis=-1), -1)",
+         "jax.random.categorical({k}, {d}.logits, axis=-1)"]
+MODES = ["{d}.mode()", "jnp.argmax({d}.logits, axis=-1)", "jnp.argmax({d}.probs, axis=-1)"]
+
+
+def own_law_spellings(meth):
+    """reference programs (source, result name) for a wrapper's sample / mode / sample_and_log_prob written directly over self.distribution"""
+    D = "self.distribution"
+    if meth == "sample":
+        return [t.format(d=D, k="key") for t in DRAWS]
+    if meth == "mode":
+        return [t.format(d=D) for t in MODES]
+    if meth == "sample_and_log_prob":
+        return [f"({x}, self.log_prob({x}))" for x in ["self.sample(key)"] + [t.format(d=D, k="key") for t in DRAWS]] + \
+               [f"({x}, {D}.log_prob({x}))" for x in ["self.sample(key)"] + [t.format(d=D, k="key") for t in DRAWS]]
+    return []
+
+
+def library_narrow_index_methods():
+    """{method name: dtype} for the methods of distreqx's Categorical that narrow the class index they return to a small integer type
+    (read from the library's source: `.astype("int8")` and the like); None when the source cannot be found."""
+    import ast as _ast
+    import importlib.util as _iu
+    import os as _os
+    spec = _iu.find_spec("distreqx")
+    if spec is None or not spec.submodule_search_locations:
+        return None
+    path = _os.path.join(list(spec.submodule_search_locations)[0], "distributions", "_categorical.py")
+    if not _os.path.exists(path):
+        return None
+    with open(path) as f:
+        tree = _ast.parse(f.read())
+    out = {}
+    for c in _ast.walk(tree):
+        if isinstance(c, _ast.ClassDef) and c.name == "Categorical":
+            for fn in c.body:
+                if isinstance(fn, _ast.FunctionDef) and fn.name in ("sample", "mode", "sample_and_log_prob"):
+                    for n in _ast.walk(fn):
+                        if isinstance(n, _ast.Constant) and isinstance(n.value, str) and n.value in ("int8", "uint8", "int16", "uint16"):
+                            out[fn.name] = n.value
+                        if isinstance(n, _ast.Attribute) and n.attr in ("int8", "uint8", "int16", "uint16"):
+                            out[fn.name] = n.attr
+    if "sample" in out:
+        out.setdefault("sample_and_log_prob", out["sample"])  # the base class draws through sample()
+    return out
+
+
+def check_index_width(s, rule="C15.7"):
+    """A class index has to survive the trip out of the distribution: distreqx's Categorical returns its draws and its mode as int8, which
+    wraps around above 127 classes (Discrete(200): the greedy action of class 150 comes back as -106 - outside the support, with
+    log-probability -inf). The laws that wrap it for action spaces of ANY size must therefore not hand out the library's narrowed
+    indices: their sample / mode / sample_and_log_prob are written from the component's parameters (or the library no longer narrows)."""
+    import ast as _ast
+    P = s.prog
+    narrow = library_narrow_index_methods()
+    if narrow is None:
+        s.undecide(rule, "distreqx.Categorical", "library source not found: index width not decided")
+        return
+    s.control(f"{rule}: distreqx.Categorical narrows {narrow or 'nothing'}")
+    self_ = ("param", "self")
+    n = 0
+    for ci in P.subclasses("AbstractDistribution"):
+        f = ci.fields.get("distribution")
+        if f is None or f.annotation is None or "Categorical" not in _ast.unparse(f.annotation) or "OneHot" in _ast.unparse(f.annotation):
+            continue
+        for meth in ("sample", "mode", "sample_and_log_prob"):
+            b = s.builder(inline=set())
+            reached = set()
+            for p in live(s.paths(b, ci.name, meth)):
+                for x in walk(p.ret):
+                    if isinstance(x, tuple) and x and x[0] == "call" and isinstance(x[1], tuple) and x[1][0] == "attr" and x[1][2] in narrow and x[1][1] != self_:
+                        reached.add(x[1][2])
+            n += 1
+            s.ob(rule, f"{ci.name}.{meth}", not reached, "the class indices handed out are not the library's narrowed ones (the law serves action spaces of any size)",
+                 s.loc(ci.name, meth), key="categorical-index-width", detail="; ".join(f"distreqx Categorical.{m} returns {narrow[m]}" for m in sorted(reached)),
+                 necessary_for="samples lie in the support and the mode is the most likely class also for more than 127 classes")
+    if n == 0:
+        raise AnalysisError(f"{rule}: no law wrapping a distreqx Categorical found")
+
+
 def check_product_law(s, rule="C15.2", methods=None):
     """MultiCategorical: every method is the per-component law combined over the components in order (one key split per component)."""
     self_ = ("param", "self")
@@ -49,8 +136,16 @@ def check_product_law(s, rule="C15.2", methods=None):
         paths = live(s.paths(b, "MultiCategorical", meth))
         if len(paths) != 1:
             raise AnalysisError(f"MultiCategorical.{meth}: expected one non-raising path, found {len(paths)}")
-        s.eq(rule, f"MultiCategorical.{meth}", nz, paths[0].ret, s.ref(b, expr, bind),
-             f"{meth} == {expr.replace('self.distribution', 'components')[:110]}", s.loc("MultiCategorical", meth), key=f"product-{meth}",
+        exprs = [expr]
+        if meth == "sample":
+            exprs = [expr.replace("d.sample(k)", t.format(d="d", k="k")) for t in DRAWS]
+        elif meth == "mode":
+            exprs = [expr.replace("d.mode()", t.format(d="d")) for t in MODES]
+        got_c = nz.canon(paths[0].ret)
+        hit = next((e for e in exprs if nz.canon(s.ref(b, e, bind)) == got_c), None)
+        s.eq(rule, f"MultiCategorical.{meth}", nz, paths[0].ret, s.ref(b, hit or expr, bind),
+             f"{meth} == {expr.replace('self.distribution', 'components')[:110]}" + (" (or the component law written from its parameters)" if len(exprs) > 1 else ""),
+             s.loc("MultiCategorical", meth), key=f"product-{meth}",
              necessary_for="a product law has log-probability and entropy equal to the sums over its independent components, in component order")
     p = one(s.paths(b, "MultiCategorical", "sample_and_log_prob"), "MultiCategorical.sample_and_log_prob")
     ref = s.refprog(b, """
@@ -59,8 +154,23 @@ samples = jnp.stack(tuple(p[0] for p in pairs), axis=-1)
 logps = jnp.sum(jnp.stack(tuple(p[1] for p in pairs), axis=-1), axis=-1)
 out = (samples, logps)
 """, bind)
-    s.eq(rule, "MultiCategorical.sample_and_log_prob", nz, p.ret, ref["out"],
-         "sample_and_log_prob == (stack of element 0, sum of stacked element 1) of ONE per-component sample_and_log_prob call each", s.loc("MultiCategorical", "sample_and_log_prob"),
+    want_sl = ref["out"]
+    got_sl = nz.canon(p.ret)
+    if nz.canon(want_sl) != got_sl:
+        # the other spelling: one draw per component (in any accepted spelling), scored by that component's own log_prob
+        for t in DRAWS:
+            alt = s.refprog(b, f"""
+draws = tuple({t.format(d="d", k="k")} for d, k in zip(self.distribution, jax.random.split(key, len(self.action_dims))))
+samples = jnp.stack(draws, axis=-1)
+logps = jnp.sum(jnp.stack(tuple(d.log_prob(x) for d, x in zip(self.distribution, draws)), axis=-1), axis=-1)
+out = (samples, logps)
+""", bind)
+            if nz.canon(alt["out"]) == got_sl:
+                want_sl = alt["out"]
+                break
+    s.eq(rule, "MultiCategorical.sample_and_log_prob", nz, p.ret, want_sl,
+         "sample_and_log_prob == (stack of the component draws, sum of the components' log-probabilities OF THOSE draws): one fused call or one draw + log_prob per component",
+         s.loc("MultiCategorical", "sample_and_log_prob"),
          key="product-sample-and-log-prob", necessary_for="sample_and_log_prob returns the log-probability of the sample it returns")
     # flat split
     bs = s.builder(inline=set())
@@ -107,8 +217,22 @@ def check_thin_wrappers(s, rule="C15.1"):
     for ci in P.subclasses("AbstractDistreqxWrapper"):
         for meth in METHODS:
             ok = not (meth in ci.methods and meth not in allowed_overrides.get(ci.name, set()))
-            s.ob(rule, f"{ci.name}.{meth}", ok, "thin wrappers do not override the forwarded methods", P.loc(ci.module, ci.methods[meth]) if meth in ci.methods else P.loc(ci.module, ci.node),
-                 key="unexpected-override", necessary_for="a policy samples from the same distribution whose log-probability it reports")
+            detail = ""
+            if not ok and ci.name == "Categorical" and meth in ("sample", "mode", "sample_and_log_prob"):
+                # an override is no second law when it IS the wrapped categorical's law written from its parameters (the library narrows
+                # its own draws and modes to int8, so a wrapper that must serve more than 127 classes has to draw for itself): compared,
+                # by normal form, with categorical(key, logits) / argmax(logits) / (draw, log_prob(draw)) over self.distribution
+                bo = s.builder(inline=set())
+                nzo = Normalizer(bo)
+                po = live(s.paths(bo, ci.name, meth))
+                bind_o = {"self": ("param", "self"), "key": ("param", "key")}
+                if len(po) == 1:
+                    got_o = nzo.canon(po[0].ret)
+                    ok = any(nzo.canon(s.ref(bo, e, bind_o)) == got_o for e in own_law_spellings(meth))
+                    detail = show(po[0].ret, maxlen=240)
+            s.ob(rule, f"{ci.name}.{meth}", ok, "thin wrappers do not override the forwarded methods (other than by the wrapped law itself, written from its parameters)",
+                 P.loc(ci.module, ci.methods[meth]) if meth in ci.methods else P.loc(ci.module, ci.node),
+                 key="unexpected-override", detail=detail, necessary_for="a policy samples from the same distribution whose log-probability it reports")
             n += 1
     return n
 
@@ -132,6 +256,7 @@ def check(s):
     s.ob("C15.1", "wrapper-classes", len([c for c in P.concrete_exported("lerax.distribution")]) >= 7 and n >= 35,
          "the seven exported distribution classes are covered", "", key="class-count", detail=f"{len(wrappers)} wrapper subclasses")
     check_product_law(s)
+    check_index_width(s, "C15.7")
     # ---------------------------------------------------------------- C15.3
     sib = {}
     for cls, multi in (("SquashedNormal", False), ("SquashedMultivariateNormalDiag", True)):
@@ -228,7 +353,7 @@ def check(s):
     from .util import fields_initialised
     fields_initialised(s, "C15.5", [c for m_ in sorted(P.modules.values(), key=lambda m__: m__.name) if m_.name.startswith("lerax.distribution") for c in m_.classes.values()],
                        necessary_for="every distribution class is a usable law for every valid parameterisation")
-    for r_, n_ in (("C15.1", 8), ("C15.2", 9), ("C15.3", 9), ("C15.4", 3), ("C15.5", 40)):
+    for r_, n_ in (("C15.1", 8), ("C15.2", 9), ("C15.3", 9), ("C15.4", 3), ("C15.5", 40), ("C15.7", 6)):
         s.floor(r_, n_)
 
 
